@@ -1,9 +1,11 @@
 #!/usr/bin/env python3
-"""keep_seed.py <ID> <A|B> <demo dest in tree> <detected-by text> : copy a confirmed seeded change into /verif/seeded/<ID>-<A|B>/."""
+"""keep_seed.py <ID> <A|B> <demo dest in tree> <detected-by text> [scratch root] [suffix] : copy a confirmed seeded change into /verif/seeded/<ID>-<A|B>/."""
 import json, os, shutil, sys, glob
 pid, ab, dest, detected = sys.argv[1:5]
-src = "/tmp/seed/%s/seed_out/%s" % (pid, ab)
-dst = "/verif/seeded/%s-%s" % (pid, ab)
+root = sys.argv[5] if len(sys.argv) > 5 else "/tmp/seed"      # scratch root of the seeding round
+name = sys.argv[6] if len(sys.argv) > 6 else ab               # suffix under /verif/seeded
+src = "%s/%s/seed_out/%s" % (root, pid, ab)
+dst = "/verif/seeded/%s-%s" % (pid, name)
 os.makedirs(dst, exist_ok=True)
 shutil.copy(os.path.join(src, "patch.diff"), dst)
 for f in glob.glob(os.path.join(src, "*_test.go")) + glob.glob(os.path.join(src, "*.go")):
